@@ -129,6 +129,8 @@ fn check_all<G: GraphLike + PartialEq>(family: &'static str, index: u64, backend
     // tuples of each rule and every 16th after that are evaluated, and every 37th rejected
     // tuple is confirmed through the checked form
     let big = args.len() > 42;
+    // (above 120 vertices: the first 12 and every 64th)
+    let (first_n, every) = if args.len() > 120 { (12, 64) } else { (40, 16) };
     for (rule, ar, has_checked) in RULES {
         let mut acc = 0u64;
         let mut rej = 0u64;
@@ -151,7 +153,7 @@ fn check_all<G: GraphLike + PartialEq>(family: &'static str, index: u64, backend
                 if ok {
                     acc += 1;
                     cx.count(&format!("accept:{rule}:{cls}"), 1);
-                    if big && acc > 40 && acc % 16 != 0 {
+                    if big && acc > first_n && acc % every != 0 {
                         cx.count("large-diagram:accepted-not-followed-up", 1);
                         continue;
                     }
@@ -281,6 +283,11 @@ pub fn run() {
         let hi = *r.pick(&[90usize, 140, 200]);
         let d = gen_long_sparse(r, 66, hi, PhasePool::CliffordHeavy, gl, 0.0);
         check_desc("long-sparse", i, r, &d);
+    });
+    par_cases("hub", t.pick(16usize, 800usize), move |r, i| {
+        let gl = r.chance(0.5);
+        let d = gen_hub(r, 129, 200, PhasePool::CliffordHeavy, gl);
+        check_desc("hub", i, r, &d);
     });
     c.extra("exhaustive_tiny", json!({"max_spiders": max_ns, "space": space_total, "completed": completed}));
 }
